@@ -1311,6 +1311,26 @@ fn seg_state(cx: &mut SegCtx<'_>, cls: &[Lc], extra: usize, only: Option<(u8, u6
 						up = par;
 					}
 					cases.push((format!("Lie(top..node{})", up), Some(consistent_lie(r, &p, g.last, up)), Expect::Reject));
+					// the whole segment is spent and stands for the hash of its highest all-spent
+					// ancestor `up`.  Claim instead that a HIGHER ancestor is all spent: carry only the
+					// (true) hash of that ancestor and the proof from there.  Its sub-tree holds an
+					// unspent leaf (of a neighbouring segment), which the receiver would never ask for.
+					if p.hash_pos.len() == 1 && p.leaf_pos.is_empty() && p.hash_pos[0] == up {
+						let mut a = up;
+						let mut k = 0usize;
+						while let Some(par) = r.parent(a) {
+							a = par;
+							k += 1;
+							if k > p.proof.len() {
+								break;
+							}
+							let mut q = p.clone();
+							q.hash_pos = vec![a];
+							q.hashes = vec![r.hash(a)];
+							q.proof = p.proof[k..].to_vec();
+							cases.push((format!("HideAbove(node{})", a), Some(q), Expect::Reject));
+						}
+					}
 				}
 			}
 			let mut case_no = 0u64;
